@@ -29,6 +29,29 @@ def build(rng, tier):
                 inst = f"{pid}_{j}"
                 cases.append(engcheck.Case(pid, inst, engcheck.std_history(inst, pid, inp) if not par else
                                            [f"eng new {inst} {pid} par"] + engcheck.std_history(inst, pid, inp)[1:], {"inp": inp, "kind": "par" if par else "serial"}))
+    # relations with initialisers (`relation r(..) = vec![..]`) into which the caller PUSHES further rows before the first run(), some of them derivable by the
+    # rules: every row - initial or pushed - must be in the indices when the rules run, so that no derivation appends it again
+    from . import c09
+    for i, p in enumerate(plist[: (4 if tier == "quick" else 16)]):
+        r5 = rng.fork(f"init{i}")
+        base = gen.nodup_input(r5, p, max_rows=5)
+        pid = f"ini{i}"
+        progs[pid] = p
+        mods.append((pid, c09.module_init(pid, p, base)))
+        db = eng.naive_model(p, base)
+        for j in range(3 if tier == "quick" else 8):
+            r6 = r5.fork(f"j{j}")
+            pushed = gen.nodup_input(r6, p, max_rows=3)
+            for rel in range(len(p["rels"])):
+                der = [tuple(t) for t in sorted(db.get(rel, ())) if tuple(t) not in base.get(rel, [])][: r6.range(0, 3)]
+                pushed[rel] = [t for t in dict.fromkeys(list(pushed.get(rel, [])) + der) if t not in base.get(rel, [])]
+            union = {rel: list(base.get(rel, [])) + list(pushed.get(rel, [])) for rel in range(len(p["rels"]))}
+            inst = f"{pid}_{j}"
+            ops = [f"eng new {inst} {pid}"]
+            for rel, rows in pushed.items():
+                if rows: ops.append(f"eng push {inst} r{rel}" + "".join(" " + eng.sx_tuple(t) for t in rows))
+            ops += [f"eng run {inst}", f"eng dump {inst}"]
+            cases.append(engcheck.Case(pid, inst, ops, {"inp": union, "kind": "initialised+pushed", "no_model": True}))
     # many workers deriving the same not-yet-present tuples at the same time (the insert-if-absent race)
     stress = {"rels": [{"arity": 1}, {"arity": 1}, {"arity": 2}],
               "rules": [{"heads": [(1, [("var", 1)])], "body": [("cl", 0, [("v", 0)], []), ("for", 1, ("range", 0, 400))]},
